@@ -33,6 +33,9 @@ ExitHonest ==
   /\ O.rc # 0 => O.diag > 0
   /\ (\E k \in 1..Len(O.outs) : O.outs[k].requested /\ O.outs[k].fault) => O.rc # 0
 
+\* an input known to exceed a documented internal limit is refused with a diagnostic
+LimitReported == O.overlimit => (O.rc # 0 /\ O.diag > 0)
+
 \* C18: observations of one group (same input file, same options) differ only in their environment
 \* (allocator perturbation, environment size, working directory, -o file versus -t, sanitizer build):
 \* same exit status and byte-identical outputs
